@@ -1,6 +1,8 @@
 #!/bin/bash
 # usage: selftest/process_seed.sh <PID> [worktree]   -- confirm a sub-agent's seeded change and run our check against it
 set -u
+export VERIF_EVIDENCE_DIR=$(mktemp -d /tmp/stbem_evid.XXXXXX)
+trap 'rm -rf "$VERIF_EVIDENCE_DIR"' EXIT
 P=$1; WT=${2:-/tmp/wt_seed_$P}; TAG=${3:-$P}
 D=/verif/seeded/$TAG
 mkdir -p $D
